@@ -52,6 +52,11 @@ FIRST = {
     "C19-4": "the check CRASHED (exit 2: it called a private helper whose signature the change altered); implementation exceptions are now broken correspondence; plus: the processed entry is a symbolic link to the file",
     "C12-4": "missed by C12, C15 HUNG (28 min); per-case alarm and time-limited shrinking; alias sets referring to each other against the registration order",
     "C12-5": "missed; names the template language cannot spell offered as alias / ad-hoc names, every listed alias or ad-hoc tag must be usable in a template",
+    "C09-10": "missed; filter/sort expressions that parse but are refused by a later stage of compile() ('(yield)', '(await ..)', a walrus in a comprehension iterable: SyntaxError without source text) and other exception classes; every listed expression is now tried in both positions whatever the seed",
+    "C07-12": "missed; the order in which directories and explicitly named files appear on the command line is now varied (files first, interleaved)",
+    "C19-8": "generator extended after reading the author's report, before the first trial: forged contents whose running CRC is exactly 0 at a read boundary / for the whole file",
+    "C05-12": "stream crossdev added after reading the author's report, before the first trial: files gathered through a link to a directory on another file system (/dev/shm) and moved into the input directory",
+    "C02-12": "missed by C02 (caught by C16): two identically configured %Count tags sharing one instance",
     "C18-11": "missed; contexts that coincide with attributes of the processed files (their names, suffixes, directories)",
     "C06-10": "reported as a broken correspondence with no-failing-input-found; corpus case LINKMOVE (a dangling relative link moved to where its target exists, the next destination leads through it) gives the concrete replay",
     "C03-8": "reported as a broken correspondence with no-failing-input-found; the stop oracle now also demands the converse (an occupied, not vacated destination must not end in status 0)",
